@@ -854,7 +854,14 @@ func ruleWaitRemoveReturn(c *Ctx, r *Reporter) {
 		}
 		switch {
 		case isNilConst(res):
-			r.check(isCtxErr, key, c.posStr(instrPos(ret)), "nil result is returned together with ctx.Err()", "a nil result is returned without the context's error")
+			// nothing may have been collected (and so be removed by the deferred closure) on this path
+			collected := false
+			for _, ia := range allInstrs(fn) {
+				if st, ok := ia.In.(*ssa.Store); ok && st.Addr == ssa.Value(cell) && !isNilConst(st.Val) && instrReaches(st, ret) {
+					collected = true
+				}
+			}
+			r.check(isCtxErr && !collected, key, c.posStr(instrPos(ret)), "nil result is returned together with ctx.Err(), on a path where nothing was collected", "a nil result is returned without the context's error, or after channels were already collected: those are removed from the set by the deferred closure but never returned to the caller")
 		default:
 			p, ok := isLoad(res)
 			r.check(ok && p == ssa.Value(cell) && (isNilConst(errv) || isCtxErr), key, c.posStr(instrPos(ret)), "returns the result slice (with nil or ctx.Err())", "Wait returns something other than the slice whose contents are removed from the set")
